@@ -909,6 +909,31 @@ class BasisManaged(Managed):
     def unprotect_basis(self):
         self.is_basis_protected = False
         
+    def __getstate__(self):
+        """State for pickling (saving) is taken outside of all contexts
+        
+        An object which is just represented in the basis of an active
+        `eigenbasis_of` context is saved in the representation it has
+        outside of all contexts, so that it can be loaded anywhere.
+        """
+        cb = self.get_current_basis()
+        stack = self.manager.basis_stack
+        if (cb == 0) or (cb not in stack) or self.is_basis_protected:
+            return self.__dict__
+        
+        cls = self.__class__
+        tmp = cls.__new__(cls)
+        tmp.__dict__.update(self.__dict__)
+        for key, val in self.__dict__.items():
+            if isinstance(val, numpy.ndarray):
+                tmp.__dict__[key] = val.copy()
+        # scroll back over the bases
+        for k in range(stack.index(cb), 0, -1):
+            SS = self.manager.basis_transformations[k]
+            tmp.transform(numpy.linalg.inv(SS), inv=SS)
+        tmp.set_current_basis(0)
+        return tmp.__dict__
+    
     def _register_copy(self, new):
         """Registers a copy of this object with the basis it is in
         
